@@ -98,7 +98,7 @@ def norm(s):
 
 for name, src, cfg, cs in run:
     txt = open(os.path.join(W, 'gen', 'T_%s.v' % name)).read()
-    ev = txt + '\nDefinition un (o : option Z) : Z := match o with Some v => v | None => (-999999) end.\nDefinition obind {A B} (o : option A) (f : A -> option B) : option B := match o with Some a => f a | None => None end.\n' + '\n'.join('Eval vm_compute in (%s).' % cb.replace('@P@', '') for _, cb in cs) + '\n'
+    ev = txt + '\n#[local] Existing Instance Casts.usize64_w.\nDefinition un (o : option Z) : Z := match o with Some v => v | None => (-999999) end.\nDefinition obind {A B} (o : option A) (f : A -> option B) : option B := match o with Some a => f a | None => None end.\n' + '\n'.join('Eval vm_compute in (%s).' % cb.replace('@P@', '') for _, cb in cs) + '\n'
     ef = os.path.join(W, 'evals', 'E_%s.v' % name)
     open(ef, 'w').write(ev)
     c = sh(['timeout', '300', 'coqc', '-Q', os.path.join(V, 'coq'), 'EG', ef])
